@@ -20,6 +20,8 @@ structure DS where
   payload : List (Nat × Stream) := []     -- conn id → the chunks its client sends
   sent : List Nat := []                   -- clients that have sent their bytes (B)
   hung : List Nat := []                   -- clients that hung up (finalisation)
+  gated : List Nat := []                  -- conns whose first data Read returns only at R<c>
+  filled : List Nat := []                 -- gated conns whose client has sent: the Read is under way
   outstanding : List (Nat × Nat) := []    -- (call index, sub-listener) of blocked Accept calls
   results : List (Nat × String) := []     -- call index → result
   nCalls : Nat := 0
@@ -137,8 +139,25 @@ def stimulus (d : DS) (tok : String) : Option DS :=
           let d1 := { d with payload := d.payload ++ [(c, p)] }
           some (if d1.st.aloop = .idle then d1.apply (.baseAccept c) else d1)
       | none => none
+    | 'G' :: r => match parseConnTok (String.ofList r) with
+      | some (c, p) =>
+        if d.payload.any (·.1 = c) then some d
+        else
+          let d1 := { d with payload := d.payload ++ [(c, p)], gated := d.gated ++ [c] }
+          some (if d1.st.aloop = .idle then d1.apply (.baseAccept c) else d1)
+      | none => none
     | 'B' :: r => match (String.ofList r).toNat? with
-      | some c => some (if d.payload.any (·.1 = c) ∧ ¬ d.sent.contains c then { d with sent := d.sent ++ [c] } else d)
+      | some c =>
+        if d.payload.any (·.1 = c) ∧ ¬ d.sent.contains c then
+          -- a gated Read with data to deliver completes only at R<c>: until then the
+          -- dispatcher of c has not taken its step
+          if d.gated.contains c ∧ ¬ (d.payloadOf c).flatten.isEmpty then
+            some (if d.filled.contains c then d else { d with filled := d.filled ++ [c] })
+          else some { d with sent := d.sent ++ [c] }
+        else some d
+      | none => none
+    | 'R' :: r => match (String.ofList r).toNat? with
+      | some c => some (if d.filled.contains c ∧ ¬ d.sent.contains c then { d with sent := d.sent ++ [c] } else d)
       | none => none
     | _ => none
 
@@ -146,7 +165,8 @@ def finalise (d : DS) : DS :=
   let d := settle d
   let d := (List.range d.st.subs.length).foldl (fun d t => d.apply (.closeSub t)) d
   let d := settle d
-  let d := settle { d with hung := d.conns }
+  -- every gate opens, every silent client hangs up
+  let d := settle { d with sent := d.sent ++ d.filled.filter (fun c => ¬ d.sent.contains c), hung := d.conns }
   let d := if d.st.aloop = .idle then d.apply .baseAcceptErr else d
   settle d
 
